@@ -242,6 +242,9 @@ func (fx *Fx) specEval(env *SpecEnv, e SExpr) Val {
 		}
 		n.qdepth = env.qdepth + 1
 		body := fx.specBool(n, e.Body)
+		if pat := fx.autoPattern(n, e); pat != "" {
+			body = fmt.Sprintf("(! %s :pattern (%s))", body, pat)
+		}
 		q := "exists"
 		if e.Forall {
 			q = "forall"
@@ -311,6 +314,96 @@ func (fx *Fx) specEval(env *SpecEnv, e SExpr) Val {
 	}
 	sfail("cannot translate %s", sexprString(e))
 	return Val{}
+}
+
+// autoPattern: a multi-pattern made of the terms in which a bound variable is used bare as an index
+// (ev(p), m[k], heap(...)[r]); empty if these do not cover all bound variables.
+func (fx *Fx) autoPattern(env *SpecEnv, q *SQuant) string {
+	bound := map[string]bool{}
+	for _, v := range q.Vars {
+		bound[v.Name] = true
+	}
+	covered := map[string]bool{}
+	var pats []string
+	seen := map[string]bool{}
+	add := func(v string, e SExpr) {
+		defer func() { recover() }()
+		t := fx.specEval(env, e)
+		if !seen[t.T] {
+			seen[t.T] = true
+			pats = append(pats, t.T)
+		}
+		covered[v] = true
+	}
+	var walk func(x SExpr)
+	walk = func(x SExpr) {
+		switch x := x.(type) {
+		case *SUnary:
+			walk(x.X)
+		case *SBinary:
+			walk(x.X)
+			walk(x.Y)
+		case *SCall:
+			if id, ok := x.Fun.(*SIdent); ok && id.Name == "ev" && len(x.Args) == 1 {
+				if a, ok := x.Args[0].(*SIdent); ok && bound[a.Name] && !covered[a.Name] {
+					add(a.Name, x)
+				}
+			}
+			if id, ok := x.Fun.(*SIdent); ok && id.Name == "at" && len(x.Args) == 2 {
+				if a, ok := x.Args[1].(*SIdent); ok && bound[a.Name] && !covered[a.Name] {
+					add(a.Name, x)
+				}
+			}
+			if id, ok := x.Fun.(*SIdent); ok && id.Name == "old" {
+				return // triggers on the current state only
+			}
+			walk(x.Fun)
+			for _, a := range x.Args {
+				walk(a)
+			}
+		case *SSelector:
+			walk(x.X)
+		case *SIndex:
+			if a, ok := x.I.(*SIdent); ok && bound[a.Name] && !covered[a.Name] {
+				// bare index into a raw array or a map
+				func() {
+					defer func() { recover() }()
+					b := fx.specEval(env, x.X)
+					isMap := false
+					if b.GT != nil {
+						_, isMap = types.Unalias(b.GT).Underlying().(*types.Map)
+					}
+					if b.GT == nil && strings.HasPrefix(b.S, "(Array") {
+						add(a.Name, x)
+					} else if isMap {
+						_ = isMap
+					}
+				}()
+			}
+			walk(x.X)
+			walk(x.I)
+		case *SSliceE:
+			walk(x.X)
+		case *SQuant:
+			// inner quantifiers choose their own
+		case *SCond:
+			walk(x.C)
+			walk(x.A)
+			walk(x.B)
+		case *SLet:
+			walk(x.Val)
+			walk(x.Body)
+		case *STypeAssert:
+			walk(x.X)
+		}
+	}
+	walk(q.Body)
+	for _, v := range q.Vars {
+		if !covered[v.Name] {
+			return ""
+		}
+	}
+	return strings.Join(pats, " ")
 }
 
 func arrayElemSort(s string) string {
@@ -745,6 +838,26 @@ func (fx *Fx) specCall(env *SpecEnv, e *SCall) Val {
 			return Val{T: "(s_base " + arg(0).T + ")", S: "Int", GT: intT}
 		case "off":
 			return Val{T: "(s_off " + arg(0).T + ")", S: "Int", GT: intT}
+		case "at":
+			// at(s, a): element at absolute position a of the backing array of s (s[i] == at(s, off(s)+i))
+			x, a := arg(0), arg(1)
+			sl, ok := types.Unalias(x.GT).Underlying().(*types.Slice)
+			if !ok {
+				sfail("at() on non-slice")
+			}
+			es := c.sortOf(sl.Elem())
+			h := st.heap("E:"+typeKey(sl.Elem()), "(Array Int (Array Int "+es+"))")
+			return Val{T: fmt.Sprintf("(select (select %s (s_base %s)) %s)", h, x.T, a.T), S: es, GT: sl.Elem()}
+		case "elemptrAt":
+			// elemptrAt(s, a): address of the element at absolute position a
+			x, a := arg(0), arg(1)
+			sl, ok := types.Unalias(x.GT).Underlying().(*types.Slice)
+			if !ok {
+				sfail("elemptrAt on non-slice")
+			}
+			name := "elemaddr_" + typeKey(sl.Elem())
+			c.declareFun(name, []string{"Int", "Int"}, "Int")
+			return Val{T: fmt.Sprintf("(%s (s_base %s) %s)", name, x.T, a.T), S: "Int", GT: types.NewPointer(sl.Elem())}
 		case "elemptr":
 			// elemptr(s, i): address of s[i]
 			x, i := arg(0), arg(1)
